@@ -518,6 +518,10 @@ def perm_named(kind: str, n: int):
         return [r[-1]] + r[1:-1] + [r[0]] if n >= 2 else r
     if kind == "rev":
         return r[::-1]
+    if kind == "bswap":  # last two swapped AND the leading (batch) axes permuted: [1,0,…,N-1,N-2]
+        return [1, 0] + r[2:-2] + [r[-1], r[-2]] if n >= 4 else (r[:-2] + [r[-1], r[-2]] if n >= 2 else r)
+    if kind == "brot":  # batch axes rotated, last two kept: [1,…,N-3,0,N-2,N-1]
+        return r[1:-2] + [0] + r[-2:] if n >= 4 else r
     raise ValueError(kind)
 
 
@@ -536,7 +540,12 @@ class Fmm:
                      "transBatchA": rng.choice([None, 0, 0, 1]) if rank >= 3 else None,
                      "transBatchB": rng.choice([None, 0, 0, 1]) if rank >= 3 else None,
                      "alpha": rng.choice([None, 1.0, 0.5, 2.5])}
-        pk = rng.choice(["none", "id", "swap", "swap", "rotL", "rotR", "bp", "bpinv", "sw0L", "rev"])
+        pk = rng.choice(["none", "id", "swap", "swap", "rotL", "rotR", "bp", "bpinv", "sw0L", "rev", "bswap", "bswap",
+                         "brot"])
+        if pk in ("bswap", "brot"):
+            rank = 4  # needs two batch axes
+            if inner is not None and inner["transBatchA"] is None:
+                inner.update(transBatchA=rng.choice([None, 0, 0, 1]), transBatchB=rng.choice([None, 0, 0, 1]))
         c = {"fam": "fmm", "kind": kind, "rank": rank, "n": rng.choice([2, 3]), "inner": inner, "perm_kind": pk,
              "perm": perm_named(pk, rank), "cst_shape": rng.choice([[], [], [1], [1, 1], [2]]),
              "cst": rng.choice([2.0, 0.5, 8.0, -3.0, 1.0]), "cst_const": rng.random() < 0.9,
@@ -545,7 +554,7 @@ class Fmm:
         if kind in ("t1", "t2", "mt") and rng.random() < 0.35:
             xr, yr = rng.choice([(2, 3), (3, 2), (2, 4), (4, 2), (3, 4)])
             opr = xr if kind == "t1" else yr if kind == "t2" else max(xr, yr)
-            pk = rng.choice(["none", "none", "swap", "rev", "id", "rotL"])
+            pk = rng.choice(["none", "none", "swap", "rev", "id", "rotL", "bswap"])
             c.update(xrank=xr, yrank=yr, perm_kind=pk, perm=perm_named(pk, opr))
             if inner is not None:
                 inner.update(transBatchA=None, transBatchB=None)
